@@ -64,6 +64,7 @@ def AExpr.noAgg : AExpr → Bool
   | .case c a b => c.noAgg && a.noAgg && b.noAgg
   | .paren a => a.noAgg
   | .outRef _ => true
+  | .symSum _ _ => false
 
 /-- a plan consisting of one CTE and one aggregating SELECT over it, without outer WHERE; HAVING
 may only refer to output columns -/
